@@ -200,4 +200,14 @@ def Expr.mentionsP : Expr → Bool
   | .not a | .inLits a _ | .eval a => a.mentionsP
   | _ => false
 
+/-- the role definitions whose g-function the matcher calls -/
+def Expr.gTypes : Expr → List String
+  | .g2 gty a b => gty :: (a.gTypes ++ b.gTypes)
+  | .g3 gty a b c => gty :: (a.gTypes ++ b.gTypes ++ c.gTypes)
+  | .and a b | .or a b | .eq a b | .ne a b | .lt a b | .le a b | .gt a b | .ge a b
+  | .call2 _ a b => a.gTypes ++ b.gTypes
+  | .call3 _ a b c => a.gTypes ++ b.gTypes ++ c.gTypes
+  | .not a | .inLits a _ | .eval a => a.gTypes
+  | _ => []
+
 end Casbin
